@@ -287,6 +287,30 @@ def scoped_names_ok(m):
     return None
 
 
+def strict_name_clash(am):
+    """mirror of Rewrite!ScopedSSA on an abstract model: a name defined twice in a graph, or a body name that some
+    enclosing graph defines anywhere (also later)"""
+    def walk(g, outer):
+        own = list(g["ins"]) + [i["name"] for i in g["inits"]] + [n["out"] for n in g["nodes"] if n["out"]]
+        if len(set(own)) != len(own):
+            return next(x for x in own if own.count(x) > 1)
+        hit = set(own) & outer
+        if hit:
+            return sorted(hit)[0]
+        for n in g["nodes"]:
+            for sg in n["subs"]:
+                r = walk(sg, outer | set(own))
+                if r:
+                    return r
+        return None
+
+    for g in [am["graph"]] + [f["graph"] for f in am["funcs"]]:
+        r = walk(g, set())
+        if r:
+            return r
+    return None
+
+
 def live_srcs(mj):
     """src of the original nodes whose value reaches an output (frame is judged on these)"""
     prod = {}
@@ -299,8 +323,6 @@ def live_srcs(mj):
             for s in n["subs"]:
                 collect(s)
                 need += s["outs"]
-                for nn in s["nodes"]:
-                    pass
             uses_in[n["src"]] = need
     roots = [mj["graph"]] + [f["graph"] for f in mj["funcs"]]
     for g in roots:
@@ -423,7 +445,6 @@ def run_case(c):
                 res["prop"].append(f"frame: unmatched node {n['src']} ({sop}) became {[(r['op'], r['ins']) for r in same]}")
     oi = {i["name"]: i["k"] for i in og["inits"]}
     ri = {i["name"]: i["k"] for i in ra["graph"]["inits"]}
-    used = {x for n in real_nodes for x in n["ins"]}
     for nm, k in oi.items():
         if nm in ri and ri[nm] != k:
             res["prop"].append(f"frame: initializer {nm} changed from {k} to {ri[nm]}")
@@ -441,7 +462,6 @@ def run_chunk(cases):
             r = run_case(c)
         except Exception as e:  # noqa: BLE001
             r = {"machinery": f"harness error {type(e).__name__}: {str(e)[:300]}"}
-        r.pop("after_bytes_keep", None)
         out.append(r)
     return out
 
@@ -512,7 +532,13 @@ def judge(ctx, c, r, stats):
         return
     # the real code satisfies the property here; compare with the model
     mism = []
-    if not c["ok"] or c["raised"]:
+    tolerated = False
+    if (not c["ok"]) and not c["raised"] and c["why"] == ["subgraph_name_clash"] and strict_name_clash(r["real"]):
+        # the predicted duplicate (a body name that the enclosing graph defines later) is there; the ONNX checker and, for
+        # this shape of body, ONNX Runtime tolerate it
+        tolerated = True
+        stats["tolerated"] += 1
+    if (not c["ok"] or c["raised"]) and not tolerated:
         mism.append(f"model predicts a property failure ({c['why']}) but the real result is fine")
     else:
         if r["count"] != c["count"]:
@@ -551,7 +577,7 @@ def run(ctx: core.Ctx):
     chunks = [cases[i:i + 40] for i in range(0, len(cases), 40)]
     results = core.pmap_safe(run_chunk, chunks, timeout=240)
     t2 = time.time()
-    stats = {"mismatch": 0, "explained": 0}
+    stats = {"mismatch": 0, "explained": 0, "tolerated": 0}
     items = []
     flat = []
     for ch, rs in zip(chunks, results):
@@ -599,6 +625,7 @@ def run(ctx: core.Ctx):
     ctx.set("distinct_nontrivial", nontriv)
     ctx.set("model_impl_mismatches", stats["mismatch"])
     ctx.set("failures_explained_by_deviation", stats["explained"])
+    ctx.set("name_clash_tolerated_by_checker_and_ort", stats["tolerated"])
     ctx.set("exhaustive", True)
     ctx.set("rule", "cases = 'done' states of Rewrite.tla under the implementation model: every host derivable within the cfg's bounds for every "
                     "rule set; distinct by (rules, commute, host model); non-trivial = the model applies at least one rule")
